@@ -144,17 +144,17 @@ def install(cfg):
     # ---- re (the one RFC 7797 pattern) ----------------------------------------------------
     def re_match(interp, recv, args, kwargs):
         pat = recv.pattern
-        if pat != "^[a-zA-Z0-9-_~]+$":
-            raise Unsupported("regular expression %r" % pat)
+        cls, rep = parse_simple_class_pattern(pat)
         s = args[0]
         if interp.tag(s) != "vstr":
             interp.raise_(TypeError, "expected string or bytes-like object")
         t = interp.str_term(s)
-        cls = z3.Union(z3.Range("a", "z"), z3.Range("A", "Z"), z3.Range("0", "9"), z3.Re("-"), z3.Re("_"), z3.Re("~"))
         # python's `$` also matches before one trailing newline
-        rx = z3.Concat(z3.Plus(cls), z3.Option(z3.Re("\n")))
+        rx = z3.Concat(z3.Plus(cls) if rep == "+" else z3.Star(cls), z3.Option(z3.Re("\n")))
         ok = z3.InRe(t, rx)
         if interp.ctx.branch(ok):
+            interp.ctx.add(z3.Implies(ok, z3.InRe(t, S.ASCII_RE)))     # the class (and the newline) is ASCII
+            interp.ctx.axiom(z3.InRe(t, S.ASCII_RE), "text matching the RFC 7797 URL-safe pattern is ASCII")
             return Foreign("match")
         return None
     cfg.pattern_match = re_match
@@ -162,8 +162,29 @@ def install(cfg):
     install_numbers(cfg)
 
 
-def _pattern_method(interp, recv, name, args, kwargs):
-    pass
+def parse_simple_class_pattern(pat):
+    """`^[class]+$` / `^[class]*$` with ranges and literal characters -> (z3 regex of one character, repetition)."""
+    m = re.fullmatch(r"\^\[(.+)\]([+*])\$", pat)
+    if not m:
+        raise Unsupported("regular expression %r" % pat)
+    body, rep = m.group(1), m.group(2)
+    if body.startswith("^") or "\\" in body or "[" in body:
+        raise Unsupported("regular expression %r" % pat)
+    parts = []
+    i = 0
+    while i < len(body):
+        if i + 2 < len(body) and body[i + 1] == "-" and body[i] <= body[i + 2] and body[i].isalnum() and body[i + 2].isalnum():
+            parts.append(z3.Range(body[i], body[i + 2]))
+            i += 3
+        else:
+            parts.append(z3.Re(body[i]))
+            i += 1
+    if any(ord(c) > 127 for c in body):
+        raise Unsupported("non-ASCII character class")
+    r = parts[0]
+    for p_ in parts[1:]:
+        r = z3.Union(r, p_)
+    return r, rep
 
 
 # =============================================================================================
